@@ -89,6 +89,20 @@ def fshow(f):
     return ' + '.join(parts) or '0'
 
 
+def selftest(rep):
+    """affine extraction on a hand-made term: 2*d + w - r - 1 must NOT normalise to 2*d + w - r + 1"""
+    def T(op, a, b):
+        return ('field', ('bin', op + 'WithOverflow', a, b), '0')
+    d, w, r = ('call', 'div', (), '1.1'), ('call', 'writhe', (), '2.1'), ('cast', 'IntToInt', ('call', 'len', (('call', 'seifert_circles', (), '3.1'),), '4.1'), 'i32', 'usize')
+    good = T('Add', T('Sub', T('Add', T('Mul', ('const', 2), d), w), r), ('const', 1))
+    bad = T('Sub', T('Sub', T('Add', T('Mul', ('const', 2), d), w), r), ('const', 1))
+    fg, fb = affine(good, ss_atom), affine(bad, ss_atom)
+    ok = fg.get('w') == 1 and fg.get('r') == -1 and fg.get(1) == 1 and fb.get(1) == -1 and fg != fb
+    rep.controls.append({'engine': 'E8.affine', 'bad_flagged': ok, 'detail': 'hand-made ss term with wrong constant distinguished'})
+    if not ok:
+        rep.indet('E8 self-test: affine normalisation failed')
+
+
 def named_local_terms(body, names, havoc=True):
     """distinct terms that the named locals hold on some path"""
     out = {}
@@ -122,6 +136,7 @@ SS_SITES = [
 
 
 def check_ss(facts, rep, sites=None):
+    selftest(rep)
     want = {'w': 1, 'r': -1, 1: 1}
     n = 0
     for rx, names in (sites or SS_SITES):
